@@ -474,7 +474,7 @@ func (h *H) runFn(f *Fn) {
 		}
 		return
 	}
-	set, err := h.funcOf(f.TSet, f.sigText(""))
+	set, err := h.funcOf(f.TSet, f.sigText("string")) // (a result-less func(complex128) hits an unrelated gomacro defect)
 	if err != "" {
 		f.gmErr = "setter: " + err
 		return
